@@ -35,6 +35,7 @@ type propSpec struct {
 	ThorWall   time.Duration
 	RunWall    time.Duration // per-run watchdog
 	Rule       string
+	CrashCounts bool // the statement itself forbids crashes: a frp panic/fatal in this check's worlds is this property's violation
 	Real, Stub []string
 	Assume     []string
 }
@@ -85,6 +86,38 @@ func init() {
 		},
 		Stub: []string{"network (simnet)", "scripted clients (independent protocol implementation)", "users", "external port squatters", "clock"},
 		Rule: "one run = one seeded history of register/close/drop/squat/probe/race operations by 1-3 scripted clients against real frps with a drawn allowPorts set and quota, checked step by step against a reference allocator and against the ports simnet really has bound; distinct = distinct event-log hash; non-trivial = history ran to its end",
+	})
+	reg(&propSpec{ID: "C10", Level: "fault_enumeration",
+		Batches: []batchSpec{
+			{Name: "cycles", World: "release", Weight: 5},
+			{Name: "cycles-l2", World: "release", Weight: 3, Park: 0.005, Gos: 0.02},
+		},
+		Stub: []string{"network (simnet)", "scripted clients (independent protocol implementation)", "users", "clock"},
+		Rule: "one run = a drawn set of proxy types registered by a scripted client, then N cycles of {CloseProxy | connection drop/reset | re-login with the same run id | heartbeat timeout} each followed by the identical registration, plus registrations failing part-way (conflicting second domain, listen failure injected after port acquisition); footprint sampled after cycle 2 and after the last cycle; distinct = distinct event-log hash",
+	})
+	reg(&propSpec{ID: "C11", Level: "exploration",
+		Batches: []batchSpec{
+			{Name: "l1", World: "workconn", Weight: 4},
+			{Name: "l2", World: "workconn", Weight: 4, Park: 0.01, Gos: 0.02},
+		},
+		Stub: []string{"network (simnet)", "scripted clients (independent protocol implementation)", "users", "clock"},
+		Rule: "one run = one scripted client (pool size, work-connection behaviour good/late/never/dead drawn) with 1-16 simultaneous users on one accept path (direct, group, tcpmux vhost, stcp visitor), then a surplus-offer flood and a session end with work connections arriving around teardown; distinct = distinct event-log hash",
+	})
+	reg(&propSpec{ID: "C12", Level: "exploration",
+		Batches: []batchSpec{
+			{Name: "l1", World: "sessions", Weight: 4},
+			{Name: "l2", World: "sessions", Weight: 4, Park: 0.01, Gos: 0.02},
+		},
+		Stub: []string{"network (simnet)", "scripted clients (independent protocol implementation)", "users", "clock"},
+		Rule: "one run = seeded history of login/register/close(own, foreign)/probe/re-login with the same run id (single and 2-3 concurrent)/disconnect by 2-3 scripted clients, checked against a name->owner and run-id->session model; distinct = distinct event-log hash",
+	})
+	reg(&propSpec{ID: "C13", Level: "exploration", CrashCounts: true,
+		Batches: []batchSpec{
+			{Name: "l1", World: "groups", Weight: 3},
+			{Name: "l2", World: "groups", Weight: 5, Park: 0.02, Gos: 0.03},
+		},
+		Stub: []string{"network (simnet)", "scripted clients (independent protocol implementation)", "users", "clock"},
+		Rule: "one run = seeded history of joins (right/wrong key, same/different endpoint parameters), leaves, session drops, user connections, http rotation sweeps and last-leave-racing-join steps on one tcp, http or tcpmux group, checked against a membership model; distinct = distinct event-log hash",
 	})
 	reg(&propSpec{ID: "C01", Level: "exploration",
 		Batches: []batchSpec{
@@ -350,6 +383,12 @@ func checkProperty(id, tier string, seed uint64, budget time.Duration, maxRuns i
 						}
 					}
 				}
+				for vi := range res.Violations {
+					if p.CrashCounts && res.Violations[vi].Property == "C16" {
+						res.Violations[vi].Property = id
+						res.Violations[vi].Oracle = "crash-" + res.Violations[vi].Oracle
+					}
+				}
 				for _, v := range res.Violations {
 					if v.Property == id {
 						if len(founds) < 64 {
@@ -457,7 +496,14 @@ func checkProperty(id, tier string, seed uint64, budget time.Duration, maxRuns i
 
 func hasViolation(r *Result, v Violation) bool {
 	for _, x := range r.Violations {
-		if x.Property == v.Property && x.Oracle == v.Oracle && x.Sig == v.Sig {
+		if x.Sig != v.Sig {
+			continue
+		}
+		if x.Property == v.Property && x.Oracle == v.Oracle {
+			return true
+		}
+		// a crash re-attributed to a property whose statement forbids crashes
+		if x.Property == "C16" && v.Oracle == "crash-"+x.Oracle {
 			return true
 		}
 	}
@@ -571,7 +617,11 @@ func minimise(bld *build, runDir string, p *propSpec, f found) RunInput {
 func writeReplay(id string, in RunInput, v Violation, res *Result, bld *build) string {
 	dir := filepath.Join(verifDir, "replays")
 	os.MkdirAll(dir, 0o755)
-	path := filepath.Join(dir, fmt.Sprintf("%s-%s-%d.json", id, sanitize(v.Oracle), in.Seed))
+	sg := sanitize(v.Sig)
+	if len(sg) > 48 {
+		sg = sg[:48]
+	}
+	path := filepath.Join(dir, fmt.Sprintf("%s-%s-%s-%d.json", id, sanitize(v.Oracle), sg, in.Seed))
 	in.Out = ""
 	in.CertDir = ""
 	rep := map[string]any{
